@@ -756,6 +756,8 @@ def run_ops(case, drv):
                 for a in newnames:
                     if a in inds and len(new[nb[a]].names) != 1:
                         mon.append(M("unjoin-still-joint", f"{label}: {a} is still in block {new[nb[a]].names}"))
+            if kind == "join" and not inds and (new != old or extra):
+                mon.append(M("join-empty-changes-collection", f"{label}: join([]) returned a different collection or new parameters"))
             if kind == "join" and inds:
                 blk = {tuple(new[nb[a]].names) for a in inds}
                 if len(blk) != 1 or set(next(iter(blk))) != inds:
